@@ -7,7 +7,7 @@ Mirrors the code after the C06 `fix:` commits (OverflowError of the numeric cons
 Third-party behaviour that is a parameter (`Env`), never an axiom: Python `float(str)` / `float(bytes)`
 (the RealCodec, supplied per case by the harness from CPython itself) and CIMInstanceName.from_wbem_uri
 (property C07's subject; here only "succeeds or raises ValueError").
-Not modelled: nested lists (a list inside a list), tuples, Char16 objects, objects with user-defined numeric protocols.
+Not modelled: nested lists (a list inside a list), tuples, objects with user-defined numeric protocols.
 -/
 import Pywbem.Model.CimTypes
 import Pywbem.Model.DateTime
@@ -44,6 +44,7 @@ inductive Sc where
   | int (v : Int)
   | float (bits : Nat)
   | str (s : List Char)
+  | char16 (s : List Char)            -- a Char16 object (str subclass with cimtype 'char16')
   | bytes (s : List Nat)
   | cimInt (t : IntTy) (v : Int)
   | real32 (bits : Nat)
@@ -80,6 +81,7 @@ def cimtypeSc : Sc → Except PyExc Ty
   | .cimDT _ => .ok .datetime
   | .bool _ => .ok .boolean
   | .str _ => .ok .string
+  | .char16 _ => .ok .char16          -- isinstance(obj, CIMType)
   | .bytes _ => .ok .string
   | .datetime .. => .ok .datetime
   | .timedelta .. => .ok .datetime
@@ -101,6 +103,7 @@ def truthy : Sc → Bool
   | .int v => v != 0
   | .float bits => bits % 2 ^ 63 != 0
   | .str s => !s.isEmpty
+  | .char16 s => !s.isEmpty
   | .bytes s => !s.isEmpty
   | .cimInt _ v => v != 0
   | .real32 bits => bits % 2 ^ 63 != 0
@@ -145,6 +148,7 @@ def pyFloat (env : Env) : Sc → Except PyExc Nat
   | .cimInt _ v => intToF64 v
   | .bool b => .ok (if b then 0x3FF0000000000000 else 0)
   | .str s => match env.pyFloat false (s.map Char.toNat) with | some b => .ok b | none => .error .valueError
+  | .char16 s => match env.pyFloat false (s.map Char.toNat) with | some b => .ok b | none => .error .valueError
   | .bytes s => match env.pyFloat true s with | some b => .ok b | none => .error .valueError
   | _ => .error .typeError
 
@@ -157,6 +161,7 @@ def toArg : Sc → Arg
   | .real32 b => .float b
   | .real64 b => .float b
   | .str s => .str s
+  | .char16 s => .str s
   | .bytes s => .bytes s
   | .none => .none
   | _ => .other
@@ -164,6 +169,7 @@ def toArg : Sc → Arg
 /-- the argument as `CIMDateTime()` sees it (bytes are decoded by _ensure_unicode first) -/
 def toDtArg (env : Env) : Sc → Except PyExc DtArg
   | .str s => .ok (.str s)
+  | .char16 s => .ok (.str s)
   | .bytes b => match env.utf8 b with | some s => .ok (.str s) | none => .error .valueError
   | .datetime y mo d h mi s us off => .ok (.datetime y mo d h mi s us off)
   | .timedelta d s u => .ok (.timedelta d s u)
@@ -191,6 +197,7 @@ def cimvalueSc (env : Env) (v : Sc) (t : Ty) : Except PyExc Sc :=
      | .instName _ => .ok v
      | .className => .ok v
      | .str s => (match env.uri s with | some k => .ok (.instName k) | none => .error .valueError)
+     | .char16 s => (match env.uri s with | some k => .ok (.instName k) | none => .error .valueError)
      | _ => .error .typeError)
   | .unknown => .error .valueError                    -- type_from_name: unknown CIM data type name
   | .int ty =>
@@ -237,6 +244,8 @@ def hasTypeSc (r : Sc) (t : Ty) : Bool :=
   | .bool _, .boolean => true
   | .str _, .string => true
   | .str _, .char16 => true
+  | .char16 _, .string => true         -- Char16 is a str
+  | .char16 _, .char16 => true
   | .instance _, .string => true
   | .cimClass, .string => true
   | .cimInt ty v, .int ty' => ty == ty' && ty.lo ≤ v && v ≤ ty.hi
@@ -256,7 +265,7 @@ def hasType (r : Val) (t : Ty) : Bool :=
 def passesUntyped (v : Sc) (t : Ty) : Bool :=
   (t == .string || t == .char16) &&
   (match v with
-   | .none | .str _ | .bytes _ => false
+   | .none | .str _ | .char16 _ | .bytes _ => false
    | .instance _ | .cimClass => t == .char16
    | _ => true)
 
